@@ -96,6 +96,18 @@ def run_spec(spec, props=("C07", "C08")):
                         A.max["max_rel_dev_discrete_prefmix"] = max(A.max.get("max_rel_dev_discrete_prefmix", 0.0), d)
                         if d > TOL7:
                             A.add(V("C07", "EBCM_pref_mix_discrete", "histogram", "disagrees_with_EBCM_discrete", "%s: differs by %.3g N" % (tag, d), (), d, TOL7))
+                        # the same pair on a shifted time axis (tmin != 0: tmax stays an absolute end time in both)
+                        try:
+                            a2 = EoN.EBCM_discrete(N, (lambda x: (1 - rho) * psi(x)), (lambda x: (1 - rho) * psiP(x)), p, 1 - rho, tmin=2, tmax=6)
+                            b2 = EoN.EBCM_pref_mix_discrete(N, Pk, Pnk, p, rho=rho, tmin=2, tmax=6)
+                            if len(a2[0]) != len(b2[0]) or list(a2[0]) != list(b2[0]):
+                                A.add(V("C07", "EBCM_pref_mix_discrete", "histogram", "disagrees_with_EBCM_discrete", "%s, tmin=2, tmax=6: time axes differ: EBCM_discrete %r, EBCM_pref_mix_discrete %r" % (tag, list(a2[0]), list(b2[0]))))
+                            else:
+                                d2 = maxdev(a2[1:4], b2[1:4]) / N
+                                if d2 > TOL7:
+                                    A.add(V("C07", "EBCM_pref_mix_discrete", "histogram", "disagrees_with_EBCM_discrete", "%s, tmin=2, tmax=6: differs by %.3g N" % (tag, d2), (), d2, TOL7))
+                        except Exception as e:
+                            A.add(V("C07", "EBCM_pref_mix_discrete", "histogram", "exception", "%s, tmin=2: raised %s: %s" % (tag, type(e).__name__, str(e)[:100])))
         A.execs = A.evals
         A.sample = {"spec": spec}
         return A.result(props)
